@@ -38,7 +38,8 @@ Ltac zn_unfold := unfold zadd, zsub, zmul, zneg, zn in *.
 Ltac zn_ring :=
   zn_unfold;
   match goal with |- ?a mod qn = ?b mod qn => change (eqn a b) end;
-  rewrite ?mod_eqn; unfold eqn; f_equal; ring.
+  repeat match goal with |- context [(?a mod qn)%Z] => rewrite (mod_eqn a) end;
+  unfold eqn; f_equal; ring.
 
 Lemma zn_range a : in_zn (a mod qn).
 Proof. unfold in_zn. pose proof qn_pos. apply Z.mod_pos_bound. lia. Qed.
